@@ -4,7 +4,7 @@
    tick-wise sounding <-> relative list-order sounding through to_abs / to_rel). *)
 From Coq Require Import ZArith List Bool Lia Permutation.
 From Model Require Import Base Seq Pairing Util Bars.
-From Proofs Require Import C04_sort C05_closest C05_proofs C05_wf C05_sort C05_final C06_proofs C06_main.
+From Proofs Require Import C04_sort C05_closest C05_proofs C05_wf C05_sweep C05_sort C05_final C06_proofs C06_main.
 From Proofs Require Import C07_proofs C15_proofs Sound_glue C08_proofs C09_proofs C09_sound.
 Import ListNotations.
 Open Scope Z_scope.
@@ -150,3 +150,329 @@ Proof.
   destruct (salt_wf_run k l None KNone TS (swf_spec l W k) (or_introl eq_refl)) as (st' & R & C).
   unfold wf_key. rewrite R. destruct st'; cbn in C; auto; contradiction.
 Qed.
+
+(* ================================================================ S4: C05's wf_key gives C07's alternation *)
+Lemma krun5_alt k : forall l st st', C05_wf.krun true st (kproj k l) = Some st' ->
+  alt_run k (opn st) l = Some (opn st').
+Proof.
+  induction l as [|m l IH]; intros st st' H.
+  - cbn in H. now injection H as <-.
+  - rewrite kproj_cons_eq in H. cbn [alt_run]. change (is_key k m) with (k2_eqb k (qkey m)).
+    destruct (k2_eqb k (qkey m)) eqn:K; cbn [andb] in *.
+    + destruct (is_note m) eqn:N; cbn [andb] in H.
+      * cbn [C05_wf.krun] in H. destruct (C05_wf.kstep true st m) as [s1|] eqn:KS; [|discriminate].
+        pose proof (kstep_opn _ _ _ _ KS) as Ho. specialize (IH s1 st' H). rewrite Ho in IH.
+        destruct (is_on m) eqn:On.
+        -- destruct (C05_wf.kstep_on _ _ _ _ On KS) as [_ Hno].
+           destruct st as [|a|a b]; cbn [opn negb] in *; [exact IH|now destruct (Hno a)|exact IH].
+        -- unfold is_note in N. rewrite On in N. cbn [orb] in N. rewrite N.
+           unfold C05_wf.kstep in KS. rewrite On in KS. destruct st as [|a|a b]; try discriminate. exact IH.
+      * unfold is_note in N. apply orb_false_iff in N. destruct N as [-> ->]. now apply IH.
+    + rewrite andb_false_r in H. now apply IH.
+Qed.
+
+Lemma wf_key_alt k l : wf_key k l = true -> alt_run k false l = Some false.
+Proof.
+  intros H. destruct (wf_key_krun k l H) as (st & R & C). pose proof (krun5_alt k l KNone st R) as A.
+  cbn [opn] in A. rewrite A. destruct st; cbn in C; try reflexivity. contradiction.
+Qed.
+
+Lemma alt_run_bal k : forall l o, alt_run k o l = Some false -> bal k (b2z o) l = true.
+Proof.
+  induction l as [|m l IH]; intros o H; cbn [alt_run bal] in *.
+  - injection H as ->. reflexivity.
+  - destruct (is_key k m && is_on m); [|destruct (is_key k m && is_off m)].
+    + destruct o; [discriminate|]. exact (IH true H).
+    + destruct o; [|discriminate]. exact (IH false H).
+    + now apply IH.
+Qed.
+
+Lemma alt_balanced l : (forall k, alt_run k false l = Some false) -> balanced l = true.
+Proof. intros A. apply balanced_intro. intros k. exact (alt_run_bal k l false (A k)). Qed.
+
+Lemma alt_orun k : forall l o ov, alt_run k o l <> None -> isS ov = o ->
+  forall b, alt_run k o l = Some b -> isS (orun k ov l) = b.
+Proof.
+  induction l as [|m l IH]; intros o ov A Ho b Hb; cbn [alt_run] in *.
+  - injection Hb as <-. exact Ho.
+  - rewrite orun_cons. change (is_key k m) with (k2_eqb k (mkey m)) in *. unfold ostep.
+    destruct (type_cases m) as [T|[T|[T|T]]].
+    + destruct (is_on_t m T) as (On & _ & _).
+      assert (Of : is_off m = false) by (unfold is_off, mtype_eqb; now rewrite T).
+      rewrite T, On, Of, !andb_true_r, !andb_false_r in *. destruct (k2_eqb k (mkey m)).
+      * destruct o; [discriminate|]. apply (IH true (Some (m_vel m))); auto.
+      * now apply (IH o ov).
+    + destruct (is_off_t m T) as (On & _ & _).
+      assert (Of : is_off m = true) by (unfold is_off, mtype_eqb; now rewrite T).
+      rewrite T, On, Of, !andb_true_r, !andb_false_r in *. destruct (k2_eqb k (mkey m)).
+      * destruct o; [|discriminate]. apply (IH false None); auto.
+      * now apply (IH o ov).
+    + assert (On : is_on m = false) by (unfold is_on, mtype_eqb; now rewrite T).
+      assert (Of : is_off m = false) by (unfold is_off, mtype_eqb; now rewrite T).
+      rewrite T, On, Of, !andb_false_r in *. now apply (IH o ov).
+    + destruct (is_plain_t m T) as (Nt & _). unfold is_note in Nt. apply orb_false_iff in Nt. destruct Nt as [On Of].
+      destruct T as (T1 & T2 & T3). rewrite On, Of, !andb_false_r in *.
+      assert (E : match m_type m with
+                  | NOTE_OFF => if k2_eqb k (mkey m) then None else ov
+                  | NOTE_ON => if k2_eqb k (mkey m) then Some (m_vel m) else ov
+                  | _ => ov end = ov) by (destruct (m_type m); congruence).
+      rewrite E. now apply (IH o ov).
+Qed.
+
+Lemma alt_closed l k : alt_run k false l = Some false -> orun k None l = None.
+Proof.
+  intros A. pose proof (alt_orun k l false None ltac:(now rewrite A) eq_refl false A) as H.
+  destruct (orun k None l); [discriminate|reflexivity].
+Qed.
+
+(* ================================================================ S5: the reference quantiser only shrinks notes *)
+Lemma asum_kproj k a b : forall l, asum k a b l = asum k a b (kproj k l).
+Proof.
+  induction l as [|m l IH]; [reflexivity|]. rewrite kproj_cons_eq, asum_cons, IH.
+  destruct (is_note m) eqn:N; cbn [andb].
+  - change (k2_eqb k (qkey m)) with (is_key k m). destruct (is_key k m) eqn:K; [now rewrite asum_cons|].
+    rewrite term_nokey by exact K. lia.
+  - rewrite term_nonnote by exact N. lia.
+Qed.
+
+Lemma le_t_anti t c c' : c <= c' -> le_t t c' <= le_t t c.
+Proof. intros H. unfold le_t. destruct (Z.leb_spec c' t), (Z.leb_spec c t); cbn; lia. Qed.
+
+Definition keynote (k : k2) (m : msg) : Prop := is_note m = true /\ qkey m = k.
+
+Lemma keynote_key k m : keynote k m -> is_key k m = true.
+Proof. intros [_ <-]. apply C07_proofs.k2_eqb_refl. Qed.
+
+Lemma qnl_key_adepth values k t : pos_steps values = true -> forall L st st',
+  Forall (keynote k) L -> kst_closed st -> C05_wf.krun true st L = Some st' ->
+  adepth k t (qnl_key values true L) <= adepth k t L.
+Proof.
+  intros Hpos. unfold adepth. induction L as [| x | on off L IH] using list_ind2; intros st st' HF Hc Hr.
+  - cbn. lia.
+  - cbn [qnl_key asum]. inversion HF as [|? ? Hx _]; subst. cbn [C05_wf.krun] in Hr.
+    destruct (C05_wf.kstep true st x) as [s1|] eqn:KS; [|discriminate].
+    destruct (kstep_closed_on _ _ _ Hc KS) as (On & _ & _).
+    rewrite (term_on k _ _ _ x (keynote_key k x Hx) On). pose proof (le_t_range t (m_time x)). lia.
+  - inversion HF as [|? ? Hon HF1]; subst. inversion HF1 as [|? ? Hoff HF2]; subst.
+    cbn [C05_wf.krun] in Hr.
+    destruct (C05_wf.kstep true st on) as [s1|] eqn:KS1; [|discriminate].
+    destruct (kstep_closed_on _ _ _ Hc KS1) as (On & -> & _).
+    destruct (C05_wf.kstep true (KOpen (m_time on)) off) as [s2|] eqn:KS2; [|discriminate].
+    assert (Off : is_on off = false).
+    { destruct (is_on off) eqn:E; [|reflexivity]. unfold C05_wf.kstep in KS2. rewrite E in KS2. discriminate. }
+    destruct (kstep_off_inv _ _ _ _ Off KS2) as (a & [= <-] & -> & Hlt).
+    assert (Offb : is_off off = true).
+    { destruct Hoff as [N _]. unfold is_note in N. now rewrite Off in N. }
+    specialize (IH (KClosed (m_time on) (m_time off)) st' HF2 I Hr).
+    rewrite !asum_cons, (term_on k _ _ _ on (keynote_key k on Hon) On),
+      (term_off k _ _ _ off (keynote_key k off Hoff) Offb).
+    cbn [qnl_key]. set (cur := m_time off - m_time on). set (valid := filter _ values).
+    destruct valid as [|v vs] eqn:Ev.
+    + pose proof (le_t_anti t (m_time on) (m_time off) ltac:(lia)). lia.
+    + assert (Hin : In (closest cur (v :: vs)) valid) by (rewrite Ev; apply closest_in; discriminate).
+      unfold valid in Hin. apply filter_In in Hin. destruct Hin as [Hv Hfit].
+      apply andb_true_iff in Hfit. destruct Hfit as [_ Hle]. cbn [negb orb] in Hle. apply Z.leb_le in Hle.
+      set (d := closest cur (v :: vs)) in *.
+      rewrite !asum_cons, (term_on k _ _ _ on (keynote_key k on Hon) On).
+      assert (K' : is_key k (set_time off (m_time on + d) (m_tf off)) = true) by exact (keynote_key k off Hoff).
+      rewrite (term_off k _ _ _ _ K' Offb). cbn [set_time m_time].
+      pose proof (le_t_anti t (m_time on + d) (m_time off) ltac:(unfold cur in Hle; lia)). lia.
+Qed.
+
+Lemma qnl_key_nnt values dne : pos_steps values = true -> forall L,
+  Forall (fun m => 0 <= m_time m) L -> Forall (fun m => 0 <= m_time m) (qnl_key values dne L).
+Proof.
+  intros Hpos. induction L as [| x | on off L IH] using list_ind2; intros HF; try constructor.
+  inversion HF as [|? ? Hon HF1]; subst. inversion HF1 as [|? ? Hoff HF2]; subst.
+  cbn [qnl_key]. set (cur := m_time off - m_time on). set (valid := filter _ values).
+  destruct valid as [|v vs] eqn:Ev; [now apply IH|].
+  assert (Hin : In (closest cur (v :: vs)) valid) by (rewrite Ev; apply closest_in; discriminate).
+  unfold valid in Hin. apply filter_In in Hin. destruct Hin as [Hv _].
+  pose proof (pos_steps_in _ _ Hpos Hv) as Hd.
+  constructor; [exact Hon|]. constructor; [cbn [set_time m_time]; lia|now apply IH].
+Qed.
+
+(* ================================================================ S6: one piece through the re-quantiser *)
+Definition qn (p : list msg) : list msg :=
+  to_rel (quantise_note_lengths (to_abs p) get_default_note_values PPQN true).
+
+Lemma default_values_ok : nodupb get_default_note_values = true /\ pos_steps get_default_note_values = true.
+Proof. vm_compute. split; reflexivity. Qed.
+
+Lemma qn_spec p : track_ok p ->
+  nonneg_waits (qn p) = true /\ (forall k, alt_run k false (qn p) = Some false) /\
+  forall k t, isS (sound k t 0 None (qn p)) = true -> isS (sound k t 0 None p) = true.
+Proof.
+  intros [NN P]. change (nonneg_waits p = true) in NN.
+  pose proof (paired_alt p P) as A0.
+  assert (A1 : forall k, alt k false p = true) by (intros k; apply alt_spec; apply A0).
+  destruct (to_abs_wf p NN A1 (paired_rsdepth p P NN)) as (TS & NT & SW & _ & _).
+  pose proof (swf_wf_abs _ TS SW) as WA.
+  destruct default_values_ok as [Hnd Hpos].
+  destruct (C06_main (to_abs p) get_default_note_values PPQN true WA Hnd Hpos) as [WQ HK].
+  set (Q := quantise_note_lengths (to_abs p) get_default_note_values PPQN true) in *.
+  apply wf_abs_spec in WQ. destruct WQ as [TSQ KQ]. change (tsorted Q = true) in TSQ.
+  assert (AQ : forall k, alt_run k false Q = Some false) by (intros k; apply wf_key_alt, KQ).
+  assert (NTQ : nnt Q = true).
+  { unfold nnt. apply forallb_forall. intros m Hm. apply Z.leb_le.
+    destruct (is_note m) eqn:N.
+    - assert (Hk : In m (kproj (qkey m) Q)) by (unfold kproj; apply filter_In; now rewrite N, C05_closest.k2_eqb_refl).
+      rewrite HK in Hk.
+      assert (F : Forall (fun x => 0 <= m_time x) (qnl_key get_default_note_values true (kproj (qkey m) (to_abs p)))).
+      { apply qnl_key_nnt; [exact Hpos|].
+        apply Forall_forall. intros x Hx. apply kproj_in in Hx. destruct Hx as [Hx _]. now apply (nnt_In _ NT). }
+      rewrite Forall_forall in F. exact (F m Hk).
+    - assert (Hf : In m (filter nonnote Q)) by (apply filter_In; unfold nonnote; now rewrite N).
+      apply (Permutation_in _ (C06_nonnote (to_abs p) get_default_note_values PPQN true)) in Hf.
+      apply filter_In in Hf. destruct Hf as [Hf _]. apply (proj1 (sort_abs_in _ _)) in Hf. now apply (nnt_In _ NT). }
+  destruct (glue_to_rel Q TSQ NTQ (alt_balanced Q AQ)) as (NNR & _ & SQ).
+  assert (AR : forall k, alt_run k false (qn p) = Some false).
+  { intros k. apply alt_spec. unfold qn. fold Q. rewrite alt_to_rel. apply alt_spec, AQ. }
+  split; [exact NNR|]. split; [exact AR|]. intros k t.
+  rewrite <- (sounding_sound k t (qn p) AR), <- (sounding_sound k t p A0).
+  unfold qn. fold Q. rewrite SQ.
+  rewrite <- (glue_to_abs p k t NN) by (pose proof (alt_run_zdelta k p false false (A0 k)) as Z; cbn in Z; lia).
+  rewrite !sounding_adepth. intros H. apply Z.ltb_lt in H. apply Z.ltb_lt.
+  assert (Hle : adepth k t Q <= adepth k t (to_abs p)).
+  { unfold adepth. rewrite (asum_kproj k _ _ Q), (asum_kproj k _ _ (to_abs p)), HK.
+    pose proof (wf_abs_spec (to_abs p)) as W. apply W in WA. destruct WA as [_ KA].
+    destruct (wf_key_krun k (to_abs p) (KA k)) as (st & R & _).
+    apply (qnl_key_adepth _ k t Hpos _ KNone st); [|exact I|exact R].
+    apply Forall_forall. intros m Hm. apply kproj_in in Hm. destruct Hm as (_ & N & Kq). now split. }
+  lia.
+Qed.
+
+(* ================================================================ S7: the loop with re-quantisation on *)
+Lemma sb_track_true len rel :
+  sb_track true len rel =
+  (qn (tr_bar (sb_track false len rel)), tr_rest (sb_track false len rel), tr_more (sb_track false len rel)).
+Proof. unfold sb_track, qn. destruct (seq_split rel [len]) as [|p0 [|p1 tl]]; reflexivity. Qed.
+
+Lemma sb_track_true_rest len seqs :
+  map tr_rest (map (sb_track true len) seqs) = map tr_rest (map (sb_track false len) seqs).
+Proof. rewrite !map_map. apply map_ext. intros s. now rewrite sb_track_true. Qed.
+
+Lemma sb_track_true_more len seqs :
+  existsb tr_more (map (sb_track true len) seqs) = existsb tr_more (map (sb_track false len) seqs).
+Proof. induction seqs as [|s seqs IH]; [reflexivity|]. cbn [map existsb]. now rewrite IH, sb_track_true. Qed.
+
+Lemma sound_isS_shift k l1 l2 : (forall t, isS (sound k t 0 None l1) = true -> isS (sound k t 0 None l2) = true) ->
+  forall t now, isS (sound k t now None l1) = true -> isS (sound k t now None l2) = true.
+Proof. intros H t now. rewrite <- (Z.add_0_l now), !sound_shift. apply H. Qed.
+
+Definition ext_sub (a : list bar) (s : list msg) (r : list bar) : Prop :=
+  exists ext, r = a ++ ext /\
+    forall k t now, isS (sound k t now None (concat (map b_rel ext))) = true -> isS (sound k t now None s) = true.
+
+Lemma round_F3_sub len num den : 0 < len -> bar_capacity num den = len -> forall seqs acc nb res,
+  length acc = length seqs -> Forall track_ok seqs ->
+  Forall2 (fun x b => bar_init (tr_bar x) num den = Ok (b_rel b)) (map (sb_track true len) seqs) nb ->
+  (F3 ext_sub (extend acc nb) (map tr_rest (map (sb_track false len) seqs)) res \/
+   (existsb tr_more (map (sb_track false len) seqs) = false /\ res = extend acc nb)) ->
+  F3 ext_sub acc seqs res.
+Proof.
+  intros Hlen Hcap0. assert (Hcap : bar_capacity num den <= len <= bar_capacity num den) by lia. clear Hcap0.
+  induction seqs as [|s seqs IH]; intros acc nb res L Hok HF H.
+  - destruct acc; [|discriminate]. cbn [map] in HF. inversion HF; subst. cbn in H.
+    destruct H as [H|[_ ->]]; [inversion H|]; constructor.
+  - destruct acc as [|a acc]; [discriminate|]. cbn [map] in HF. inversion HF as [|x b xs nb' Hb HF']; subst.
+    inversion Hok as [|? ? Hs Hok']; subst. injection L as L.
+    destruct (round_track len s Hs Hlen) as (Hsound & Hbar & Hrest & Hmore).
+    rewrite sb_track_true in Hb. unfold tr_bar at 1 in Hb. cbn [fst] in Hb.
+    destruct (qn_spec _ Hbar) as (NNq & Aq & Sub).
+    destruct (bar_init_sound_alt _ num den (b_rel b) Hb Aq (fun k => alt_closed _ k (Aq k)) NNq) as [Sb Cb].
+    assert (Db : dur_rel (b_rel b) = len).
+    { apply bar_init_post in Hb. destruct Hb as [Hb _]. lia. }
+    assert (Hhead : forall ext', (forall k t now, isS (sound k t now None (concat (map b_rel ext'))) = true ->
+                                   isS (sound k t now None (tr_rest (sb_track false len s))) = true) ->
+              forall k t now, isS (sound k t now None (concat (map b_rel (b :: ext')))) = true ->
+                              isS (sound k t now None s) = true).
+    { intros ext' He k t now. cbn [map concat]. rewrite sound_app, Sb, Cb, Db, Hsound, !isS_orelse.
+      intros Hx. apply orb_true_iff in Hx. apply orb_true_iff. destruct Hx as [Hx|Hx].
+      - left. revert Hx. apply sound_isS_shift. apply Sub.
+      - right. now apply He. }
+    cbn [extend combine map fst snd] in H. fold (extend acc nb') in H.
+    destruct H as [H|[Hm ->]].
+    + inversion H as [|? ? r ? ? res' (ext' & -> & He) H']; subst. constructor.
+      * exists (b :: ext'). split; [now rewrite <- app_assoc|]. now apply Hhead.
+      * apply (IH acc nb' res' L Hok' HF'). now left.
+    + cbn [existsb] in Hm. apply orb_false_iff in Hm. destruct Hm as [Hm0 Hm]. constructor.
+      * exists [b]. split; [reflexivity|]. apply Hhead. intros k t now. rewrite (Hmore Hm0). cbn. discriminate.
+      * apply (IH acc nb' _ L Hok' HF'). right. split; [exact Hm|reflexivity].
+Qed.
+
+Lemma sb_loop_sub : forall fuel seqs tsq ksq cur num den key acc res,
+  sb_loop fuel true seqs tsq ksq cur num den key acc = Ok res ->
+  length acc = length seqs -> Forall track_ok seqs -> all_pos tsq = true -> 0 < blen num den ->
+  F3 ext_sub acc seqs res.
+Proof.
+  induction fuel as [|f IH]; intros seqs tsq ksq cur num den key acc res H L Hok Hp H0; [discriminate|].
+  rewrite sb_loop_S in H. cbn zeta in H.
+  pose proof (sig_pos tsq cur num den Hp H0) as Hlen.
+  set (num' := sig_num tsq cur num) in *. set (den' := sig_den tsq cur den) in *.
+  set (key' := key_cur ksq cur key) in *.
+  destruct (collect _ _ _ _) as [nb|e] eqn:C; [|discriminate].
+  pose proof (collect_F2 num' den' key' (fun x => bar_init (tr_bar x) num' den') _ nb C) as HF.
+  apply round_bars in C. destruct C as [Lnb _].
+  apply (round_F3_sub (blen num' den') num' den' Hlen (bar_capacity_blen num' den') seqs acc nb res L Hok HF).
+  rewrite sb_track_true_more, sb_track_true_rest in H.
+  destruct (existsb tr_more _) eqn:M.
+  - left. apply (IH _ _ _ _ _ _ _ _ _ H).
+    + rewrite extend_length, !map_length; congruence.
+    + now apply rests_ok.
+    + now apply q_rest_pos.
+    + exact Hlen.
+  - right. split; [reflexivity|]. now injection H as <-.
+Qed.
+
+(* C09, last sentence, re-quantisation on: the bars sound only where the track sounds *)
+Theorem C09_sound_subset : forall rels meta bars,
+  split_bars rels meta true = Ok bars ->
+  all_nonneg rels = true -> all_pos (filter Bars.is_ts meta) = true -> forallb paired_pos rels = true ->
+  forall i bs r, nth_error bars i = Some bs -> nth_error rels i = Some r ->
+  forall k t, isS (sound k t 0 None (concat (map b_rel bs))) = true -> isS (sound k t 0 None r) = true.
+Proof.
+  intros rels meta bars H Hnn Hp Hpp i bs r Hbs Hr k t. rewrite split_bars_eq in H.
+  assert (Hok : Forall track_ok rels).
+  { apply Forall_forall. intros s Hs. unfold all_nonneg in Hnn. rewrite forallb_forall in Hnn, Hpp.
+    split; [exact (Hnn s Hs)|exact (Hpp s Hs)]. }
+  pose proof (sb_loop_sub _ _ _ _ _ _ _ _ _ _ H ltac:(now rewrite map_length) Hok (init_tsq_pos meta Hp) eq_refl) as F.
+  destruct (F3_nth _ _ _ _ F i r bs Hr Hbs) as (a & Ha & (ext & -> & He)).
+  apply nth_error_In in Ha. apply in_map_iff in Ha. destruct Ha as (? & <- & _). cbn [app]. apply He.
+Qed.
+
+(* the inclusion can be strict: the 100-tick note is cut at the bar line (96) and its first fragment re-quantised to
+   the largest default note value 36, its second fragment keeps 4 ticks; the 3-tick note is shorter than every note
+   value and is dropped *)
+Module C09_qnl_examples.
+Import Show.
+Definition qx_rels : list (list msg) := [[on 0 60 100 0; wt 0 100; of 0 60 0; on 0 62 90 0; wt 0 3; of 0 62 0; wt 0 20]].
+Example qx_strict :
+  all_nonneg qx_rels = true /\ forallb paired_pos qx_rels = true /\ all_pos (filter Bars.is_ts []) = true /\
+  exists bars, split_bars qx_rels [] true = Ok bars /\
+    map (fun t => isS (sound (0, 60) t 0 None (concat (map b_rel (nth 0 bars []))))) [0; 50; 95; 96; 99; 100] =
+      [true; false; false; true; true; false] /\
+    map (fun t => isS (sound (0, 60) t 0 None (nth 0 qx_rels []))) [0; 50; 95; 96; 99; 100] =
+      [true; true; true; true; true; false] /\
+    isS (sound (0, 62) 101 0 None (concat (map b_rel (nth 0 bars [])))) = false /\
+    isS (sound (0, 62) 101 0 None (nth 0 qx_rels [])) = true.
+Proof.
+  split; [vm_compute; reflexivity|]. split; [vm_compute; reflexivity|]. split; [reflexivity|].
+  eexists. split; [vm_compute; reflexivity|]. vm_compute. repeat split; reflexivity.
+Qed.
+
+(* FINDING: it is not only boundary-cut fragments that shrink.  The default note values are
+   [24; 12; 6; 16; 8; 4; 36; 18; 9] (PPQN = 24), so every note longer than 36 ticks is shortened to 36 by the
+   re-quantisation, also a half note lying entirely inside one 4/4 bar *)
+Definition qx_half : list (list msg) := [[on 0 60 100 0; wt 0 48; of 0 60 0; wt 0 48]].
+Example qx_uncut_shrinks :
+  get_default_note_values = [24; 12; 6; 16; 8; 4; 36; 18; 9] /\
+  all_nonneg qx_half = true /\ forallb paired_pos qx_half = true /\
+  exists b, split_bars qx_half [] true = Ok [[b]] /\
+    map (fun t => isS (sound (0, 60) t 0 None (b_rel b))) [0; 35; 36; 47; 48] = [true; true; false; false; false] /\
+    map (fun t => isS (sound (0, 60) t 0 None (nth 0 qx_half []))) [0; 35; 36; 47; 48] = [true; true; true; true; false].
+Proof.
+  split; [vm_compute; reflexivity|]. split; [vm_compute; reflexivity|]. split; [vm_compute; reflexivity|].
+  eexists. split; [vm_compute; reflexivity|]. vm_compute. split; reflexivity.
+Qed.
+End C09_qnl_examples.
